@@ -10,15 +10,15 @@ PID = "C09"
 PROPS_FILE = "props/C09.v"
 MODEL_TARGETS = ["model/GraphDump.vo", "model/GraphInv.vo", "model/GraphTree.vo", "model/GraphTreeInv.vo"]
 RULE = ("E2: a seeded online generator drives the real Workflow + Scheduler (in-memory SQLite, dispatch through the real "
-        "pop_next_job) through the transaction alphabet of model/Graph.v following the executor / director / startup / "
+        "pop_next_job) through the transaction alphabet of model/GraphTree.v (the 14 kinds of model/Graph.v with the tree-aware declaration functions + register_static_tree) following the executor / director / startup / "
         "finalize protocols (rejected requests, crashes, detached-but-running steps, identical re-declaration = full "
         "recycle, outputs reproduced identically, a directed scenario: succeed - made pending - dispatched - detached in "
         "flight by the creator's rerun - completes - re-declared, volatile output renamed while a new step consumes the old "
         "path); after every transaction the canonical dump (nodes with creator and detached flag, file rows, step rows, "
         "dependency edges with dynamic flag, step_hash rows, env_var rows) and the outcome class (ok / usage error / "
         "internal error or non-terminating statement) are compared with the Gallina model evaluated inside Coq; inv_b, "
-        "inv_full_b (I4, I5c), inv_succeeded_b, inv_running_nohash_b and the protocol predicate protocol_ok_run are "
-        "evaluated on every prefix; fixed witness traces of the findings D16, D31 and of the hold protocol, and the D17 "
+        "inv_full_b (I4, I5c), inv_succeeded_b, inv_running_nohash_b, inv_treefile_b (T1) and the protocol predicate protocol_ok_run_t are "
+        "evaluated on every prefix; the tree-ownership oracle (non-nested attached trees, attached files under an attached tree are its STATIC files) runs on every dump of the real database; fixed witness traces of the findings D16, D31, D33 and of the hold protocol, and the D17 "
         "scenario through the real Executor.run_hash_job, are replayed on every run; the real Trellis/Workflow consistency "
         "check runs in strict mode at the end of every trace. A transaction is non-trivial when it changed the dump or was "
         "rejected; distinct by (operation, resulting dump)")
@@ -35,7 +35,7 @@ TRUSTED_BASE = [
 ]
 ASSUMPTIONS = [
     "SQLite executes triggers, CHECK constraints and transactions as documented",
-    "not modelled: glob registrations, resources, targets, static trees, durations, scheduling caches",
+    "not modelled: glob registrations, resources, targets, durations, scheduling caches; static trees: wildcard / .stepup / project-root rejections of register_static_tree",
     "creators that are not the root or a step node are outside the validated domain of the tie",
 ]
 
